@@ -69,7 +69,7 @@ func sibTokens(info *types.Info, fd *ast.FuncDecl, subst map[string]string) []st
 		}
 		return s
 	}
-	ast.Inspect(fd.Body, func(n ast.Node) bool {
+	ast.Inspect(canonFlow(fd.Body), func(n ast.Node) bool {
 		switch x := n.(type) {
 		case *ast.Ident:
 			o := info.Uses[x]
